@@ -76,6 +76,13 @@ func (e *C20) one(ctx *core.Ctx) {
 		k := c20Keys[r.Intn(len(c20Keys))]
 		lbls[k] = fmt.Sprintf("v%d-%s", r.Intn(4), k)
 	}
+	if r.Intn(3) == 0 {
+		// keys of a large family: over a run the process sees hundreds of distinct label keys
+		for i := 0; i < 2; i++ {
+			k := fmt.Sprintf("tenant-%d.example.com/%s", r.Intn(300), []string{"owner", "cost-center"}[r.Intn(2)])
+			lbls[k] = fmt.Sprintf("v%d-%s", r.Intn(4), k)
+		}
+	}
 	special, collide := false, false
 	seenS := map[string]bool{}
 	for k := range lbls {
@@ -99,7 +106,7 @@ func (e *C20) one(ctx *core.Ctx) {
 		ctx.Count("C20.empty-maps")
 	}
 	var lblCopy map[string]string
-	if nl > 0 || r.Intn(2) == 0 {
+	if len(lbls) > 0 || r.Intn(2) == 0 {
 		lblCopy = map[string]string{}
 		for k, v := range lbls {
 			lblCopy[k] = v
